@@ -348,6 +348,21 @@ class Prov:
                     (side == "Err" and last in ("map", "and_then")) or \
                     (side == "Some" and last in ("or", "or_else", "filter")):
                 return self._operand(f, c.args[0], pi)
+            # `?` and snafu context keep the success payload
+            if side == "Continue" and last == "branch" and len(pi) >= 2:
+                aty = c.argtys[0] if c.argtys else ""
+                if aty.startswith("std::result::Result<"):
+                    return self._operand(f, c.args[0], (("d", "Ok"), ("f", 0, "std::result::Result", "Ok")) + tuple(pi[2:]))
+                if aty.startswith("std::option::Option<"):
+                    return self._operand(f, c.args[0], (("d", "Some"), ("f", 0, "std::option::Option", "Some")) + tuple(pi[2:]))
+            if side == "Ok" and last == "context" and d.endswith("ResultExt::context"):
+                return self._operand(f, c.args[0], pi)
+            # Option -> Result: the Ok payload is the Some payload
+            if side == "Ok" and last in ("ok_or", "ok_or_else") and len(pi) >= 2:
+                return self._operand(f, c.args[0], (("d", "Some"), ("f", 0, "std::option::Option", "Some")) + tuple(pi[2:]))
+            # numeric conversions: the Ok payload is the argument itself
+            if side == "Ok" and last in ("try_into", "try_from") and len(pi) >= 2:
+                return self._operand(f, c.args[0], tuple(pi[2:]))
         out = set([("call", f.path, c.bb, c.res, pi)])
         if self.terminal is not None and self.terminal(c):
             return frozenset(out)
